@@ -10,16 +10,16 @@ is closed under these four — each under the conditions in which the scheduler 
 -/
 namespace SP
 
-structure Closed (e : Env) (P : St → Prop) : Prop where
+structure Closed (e : Env) (P : St → Prop) (T : Nat → Prop := fun _ => True) : Prop where
   /-- task attributes, warnings: ledger, counters and marks untouched -/
   eq : ∀ σ σ' : St, σ'.led = σ.led → σ'.cnt = σ.cnt → σ'.marks = σ.marks → P σ → P σ'
   /-- start-offset reservation and team levelling -/
   reserve : ∀ σ r i off, Inv e σ → 0 ≤ off → off ≤ (e.G : Rat) - 1 / 1000000 → P σ → P (reserveAt σ r i off)
   /-- the tail release of the finishing slot (on the last booked member and on the other team members) -/
-  release : ∀ (σ : St) r i t a, Inv e σ → (e.taskD t).leaf = true → 0 ≤ a → P σ →
+  release : ∀ (σ : St) r i t a, T t → Inv e σ → (e.taskD t).leaf = true → 0 ≤ a → P σ →
     P { σ with led := σ.led.set r i ((σ.led.get r i).release t a) }
   /-- a booking, made only behind the gate -/
-  book : ∀ σ r i t, Inv e σ → (e.taskD t).leaf = true → 0 ≤ i → available e σ r i = true → taskLimitsOk e σ t i r = true →
+  book : ∀ σ r i t, T t → Inv e σ → (e.taskD t).leaf = true → 0 ≤ i → available e σ r i = true → taskLimitsOk e σ t i r = true →
     P σ → P (bookSlot e σ r i t).1
 
 /-- the cursor is inside the scoreboard and the start offset leaves room in its slot -/
@@ -119,19 +119,19 @@ theorem initCursor_room (e : Env) (σ : St) (t : Nat) (wf : WF e) : (initCursor 
     · exact hc _ (earliestStart_ge σ _ _)
   · split <;> exact zero
 
-variable {e : Env} {P : St → Prop}
+variable {e : Env} {P : St → Prop} {T : Nat → Prop}
 
-theorem Closed.setT (hc : Closed e P) (σ : St) (t : Nat) (x : TSt) (h : P σ) : P (σ.setT t x) :=
+theorem Closed.setT (hc : Closed e P T) (σ : St) (t : Nat) (x : TSt) (h : P σ) : P (σ.setT t x) :=
   hc.eq σ _ rfl rfl rfl h
 
-theorem closed_reserveStep (hc : Closed e P) (σ : St) (t : Nat) (w : Walk) (r : Nat) (hi : Inv e σ) (hw : WalkOk e t w)
+theorem closed_reserveStep (hc : Closed e P T) (σ : St) (t : Nat) (w : Walk) (r : Nat) (hi : Inv e σ) (hw : WalkOk e t w)
     (hin : WalkIn e w) (h : P σ) : P (reserveStep σ w r) := by
   unfold reserveStep
   split
   · exact hc.reserve σ r w.cur w.offset hi hw.off_nonneg hin.off_room h
   · exact h
 
-theorem closed_levelTeam (hc : Closed e P) (wf : WF e) (σ : St) (cur : Int) (sel : List Nat) (hi : Inv e σ)
+theorem closed_levelTeam (hc : Closed e P T) (wf : WF e) (σ : St) (cur : Int) (sel : List Nat) (hi : Inv e σ)
     (hroom : ∀ m ∈ sel, availSecs e.G (σ.led.get m cur) > 0) (h : P σ) :
     P (levelTeam σ cur sel) := by
   unfold levelTeam
@@ -141,37 +141,37 @@ theorem closed_levelTeam (hc : Closed e P) (wf : WF e) (σ : St) (cur : Int) (se
     (fun acc r ha => ⟨reserveAt_inv e acc r cur _ ha.1 h0 h1, hc.reserve acc r cur _ ha.1 h0 h2 ha.2⟩)
   exact this.2
 
-theorem closed_bookResource (hc : Closed e P) (wf : WF e) (σ : St) (t : Nat) (w : Walk) (r : Nat) (hi : Inv e σ)
-    (hlf : (e.taskD t).leaf = true) (hw : WalkOk e t w) (hin : WalkIn e w) (h : P σ) : P (bookResource e σ t w r).1 := by
+theorem closed_bookResource (hc : Closed e P T) (wf : WF e) (σ : St) (t : Nat) (w : Walk) (r : Nat) (hi : Inv e σ)
+    (hlf : (e.taskD t).leaf = true) (hT : T t) (hw : WalkOk e t w) (hin : WalkIn e w) (h : P σ) : P (bookResource e σ t w r).1 := by
   rw [bookResource_eq]
   have h1 := reserveStep_inv e σ t w r hi hw
   have p1 := closed_reserveStep hc σ t w r hi hw hin h
   split
   · rename_i hcond
     simp only [Bool.and_eq_true] at hcond
-    exact hc.book _ r w.cur t h1 hlf hin.cur_nonneg hcond.1 hcond.2 p1
+    exact hc.book _ r w.cur t hT h1 hlf hin.cur_nonneg hcond.1 hcond.2 p1
   · exact p1
 
-theorem closed_bookOne (hc : Closed e P) (wf : WF e) (t : Nat) (w : Walk) (a : BookAcc) (r : Nat) (hi : Inv e a.σ)
-    (hlf : (e.taskD t).leaf = true) (hw : WalkOk e t w) (hin : WalkIn e w) (h : P a.σ) : P (bookOne e t w a r).σ := by
+theorem closed_bookOne (hc : Closed e P T) (wf : WF e) (t : Nat) (w : Walk) (a : BookAcc) (r : Nat) (hi : Inv e a.σ)
+    (hlf : (e.taskD t).leaf = true) (hT : T t) (hw : WalkOk e t w) (hin : WalkIn e w) (h : P a.σ) : P (bookOne e t w a r).σ := by
   unfold bookOne
   simp only []
-  split <;> exact closed_bookResource hc wf a.σ t w r hi hlf hw hin h
+  split <;> exact closed_bookResource hc wf a.σ t w r hi hlf hT hw hin h
 
-theorem closed_bookAll (hc : Closed e P) (wf : WF e) (σ : St) (t : Nat) (w : Walk) (sel : List Nat) (hi : Inv e σ)
-    (hlf : (e.taskD t).leaf = true) (hw : WalkOk e t w) (hin : WalkIn e w) (h : P σ) : P (bookAll e σ t w sel).σ := by
+theorem closed_bookAll (hc : Closed e P T) (wf : WF e) (σ : St) (t : Nat) (w : Walk) (sel : List Nat) (hi : Inv e σ)
+    (hlf : (e.taskD t).leaf = true) (hT : T t) (hw : WalkOk e t w) (hin : WalkIn e w) (h : P σ) : P (bookAll e σ t w sel).σ := by
   unfold bookAll
   have := foldl_inv (fun (a : BookAcc) => Inv e a.σ ∧ P a.σ) (bookOne e t w) sel { σ := σ, last := w.last } ⟨hi, h⟩
-    (fun a r ha => ⟨bookOne_inv e t w a r wf ha.1 hlf hw, closed_bookOne hc wf t w a r ha.1 hlf hw hin ha.2⟩)
+    (fun a r ha => ⟨bookOne_inv e t w a r wf ha.1 hlf hw, closed_bookOne hc wf t w a r ha.1 hlf hT hw hin ha.2⟩)
   exact this.2
 
-theorem closed_markStart (hc : Closed e P) (σ : St) (t : Nat) (w : Walk) (h : P σ) : P (markStart e σ t w) := by
+theorem closed_markStart (hc : Closed e P T) (σ : St) (t : Nat) (w : Walk) (h : P σ) : P (markStart e σ t w) := by
   unfold markStart; split
   · exact hc.setT _ _ _ h
   · exact h
 
-theorem closed_bookResources (hc : Closed e P) (wf : WF e) (σ : St) (t : Nat) (w : Walk) (hi : Inv e σ)
-    (hlf : (e.taskD t).leaf = true) (hw : WalkOk e t w) (hin : WalkIn e w) (h : P σ) : P (bookResources e σ t w).1 := by
+theorem closed_bookResources (hc : Closed e P T) (wf : WF e) (σ : St) (t : Nat) (w : Walk) (hi : Inv e σ)
+    (hlf : (e.taskD t).leaf = true) (hT : T t) (hw : WalkOk e t w) (hin : WalkIn e w) (h : P σ) : P (bookResources e σ t w).1 := by
   unfold bookResources
   have hw' : WalkOk e t { w with selected := some (selectedOf e σ t w) } := ⟨hw.off_nonneg, hw.off_le, hw.done_le⟩
   have hin' : WalkIn e { w with selected := some (selectedOf e σ t w) } := ⟨hin.cur_nonneg, hin.off_room⟩
@@ -194,13 +194,13 @@ theorem closed_bookResources (hc : Closed e P) (wf : WF e) (σ : St) (t : Nat) (
             exact ⟨levelTeam_inv e σ w.cur _ wf hi,
               closed_levelTeam hc wf σ w.cur _ hi (teamGateOk_avail e t w.cur σ _ hok) h⟩
           · exact ⟨hi, h⟩
-        have hacc := closed_bookAll hc wf _ t _ (selectedOf e σ t w) hL.1 hlf hw' hin' hL.2
+        have hacc := closed_bookAll hc wf _ t _ (selectedOf e σ t w) hL.1 hlf hT hw' hin' hL.2
         split
         · exact closed_markStart hc _ t _ hacc
         · exact hacc
 
-theorem closed_releaseOthers (hc : Closed e P) (σ : St) (t : Nat) (cur : Int) (r : Nat) (need : Rat) (sel : List Nat)
-    (hlf : (e.taskD t).leaf = true) (hn : 0 ≤ need) (hi : Inv e σ) (h : P σ) : P (releaseOthers σ t cur r need sel) := by
+theorem closed_releaseOthers (hc : Closed e P T) (σ : St) (t : Nat) (cur : Int) (r : Nat) (need : Rat) (sel : List Nat)
+    (hlf : (e.taskD t).leaf = true) (hT : T t) (hn : 0 ≤ need) (hi : Inv e σ) (h : P σ) : P (releaseOthers σ t cur r need sel) := by
   unfold releaseOthers
   have := foldl_inv (fun acc => Inv e acc ∧ P acc)
     (fun (acc : St) m =>
@@ -223,11 +223,11 @@ theorem closed_releaseOthers (hc : Closed e P) (σ : St) (t : Nat) (cur : Int) (
           simp only []
           have hsecs : 0 ≤ secs := (hacc.1.slot m cur).entries_nonneg _ (usageOf_mem hu)
           have hmin : 0 ≤ min need secs := by grind
-          exact hc.release acc m cur t _ hacc.1 hlf hmin hacc.2)
+          exact hc.release acc m cur t _ hT hacc.1 hlf hmin hacc.2)
   exact this.2
 
-theorem closed_finishTask (hc : Closed e P) (wf : WF e) (σ : St) (t : Nat) (w : Walk) (before : Rat) (fwd : Bool)
-    (hi : Inv e σ) (hlf : (e.taskD t).leaf = true) (hb : before ≤ (e.taskD t).effort) (h : P σ) :
+theorem closed_finishTask (hc : Closed e P T) (wf : WF e) (σ : St) (t : Nat) (w : Walk) (before : Rat) (fwd : Bool)
+    (hi : Inv e σ) (hlf : (e.taskD t).leaf = true) (hT : T t) (hb : before ≤ (e.taskD t).effort) (h : P σ) :
     P (finishTask e σ t w before fwd).1 := by
   have hfi := finishTask_inv e σ t w before fwd wf hi hlf hb
   unfold finishTask at hfi ⊢
@@ -241,10 +241,10 @@ theorem closed_finishTask (hc : Closed e P) (wf : WF e) (σ : St) (t : Nat) (w :
       unfold finishTask at this
       simp only [hlast] at this
       simpa [releaseOthers, needSecs] using this
-    exact closed_releaseOthers hc _ t w.cur r _ _ hlf hn hi1 (hc.release σ r w.cur t _ hi hlf hn h)
+    exact closed_releaseOthers hc _ t w.cur r _ _ hlf hT hn hi1 (hc.release σ r w.cur t _ hT hi hlf hn h)
 
-theorem closed_scheduleSlot (hc : Closed e P) (wf : WF e) (σ : St) (t : Nat) (w : Walk) (hi : Inv e σ)
-    (hlf : (e.taskD t).leaf = true) (hw : WalkOk e t w) (hin : WalkIn e w) (h : P σ) : P (scheduleSlot e σ t w).1 := by
+theorem closed_scheduleSlot (hc : Closed e P T) (wf : WF e) (σ : St) (t : Nat) (w : Walk) (hi : Inv e σ)
+    (hlf : (e.taskD t).leaf = true) (hT : T t) (hw : WalkOk e t w) (hin : WalkIn e w) (h : P σ) : P (scheduleSlot e σ t w).1 := by
   unfold scheduleSlot
   simp only []
   split
@@ -256,21 +256,21 @@ theorem closed_scheduleSlot (hc : Closed e P) (wf : WF e) (σ : St) (t : Nat) (w
       · exact hc.setT _ _ _ h
       · exact hc.setT _ _ _ h
   · have hb := bookResources_inv e σ t w wf hi hlf hw
-    have pb := closed_bookResources hc wf σ t w hi hlf hw hin h
+    have pb := closed_bookResources hc wf σ t w hi hlf hT hw hin h
     split
-    · have pfin := closed_finishTask hc wf _ t (bookResources e σ t w).2 w.done (σ.tst t).forward hb hlf hw.done_le pb
+    · have pfin := closed_finishTask hc wf _ t (bookResources e σ t w).2 w.done (σ.tst t).forward hb hlf hT hw.done_le pb
       exact hc.eq (finishTask e (bookResources e σ t w).1 t (bookResources e σ t w).2 w.done (σ.tst t).forward).1 _ rfl rfl rfl pfin
     · exact pb
 
-theorem closed_walkLoop (hc : Closed e P) (wf : WF e) (t : Nat) (fwd : Bool) (fuel : Nat) (σ : St) (w : Walk)
-    (hi : Inv e σ) (hlf : (e.taskD t).leaf = true) (hw : WalkOk e t w) (hin : WalkIn e w) (h : P σ) :
+theorem closed_walkLoop (hc : Closed e P T) (wf : WF e) (t : Nat) (fwd : Bool) (fuel : Nat) (σ : St) (w : Walk)
+    (hi : Inv e σ) (hlf : (e.taskD t).leaf = true) (hT : T t) (hw : WalkOk e t w) (hin : WalkIn e w) (h : P σ) :
     P (walkLoop e t fwd fuel σ w).1 := by
   induction fuel generalizing σ w with
   | zero => exact h
   | succ f ih =>
     unfold walkLoop
     have hs := scheduleSlot_inv e σ t w wf hi hlf hw
-    have ps := closed_scheduleSlot hc wf σ t w hi hlf hw hin h
+    have ps := closed_scheduleSlot hc wf σ t w hi hlf hT hw hin h
     simp only []
     split
     · exact ps
@@ -288,8 +288,8 @@ theorem closed_walkLoop (hc : Closed e P) (wf : WF e) (t : Nat) (fwd : Bool) (fu
           have : (1 : Rat) ≤ (e.G : Rat) := by exact_mod_cast this
           grind
 
-theorem closed_scheduleTask (hc : Closed e P) (wf : WF e) (σ : St) (t : Nat) (hi : Inv e σ)
-    (hlf : (e.taskD t).leaf = true) (h : P σ) : P (scheduleTask e σ t).1 := by
+theorem closed_scheduleTask (hc : Closed e P T) (wf : WF e) (σ : St) (t : Nat) (hi : Inv e σ)
+    (hlf : (e.taskD t).leaf = true) (hT : T t) (h : P σ) : P (scheduleTask e σ t).1 := by
   unfold scheduleTask
   simp only []
   split
@@ -306,20 +306,20 @@ theorem closed_scheduleTask (hc : Closed e P) (wf : WF e) (σ : St) (t : Nat) (h
         refine ⟨?_, initCursor_room e σ t wf⟩
         simp only [Bool.or_eq_true, decide_eq_true_eq, not_or, Int.not_lt] at hbounds
         exact hbounds.1
-      have := closed_walkLoop hc wf t (σ.tst t).forward (e.size.toNat + 3) _ _ h0 hlf hw hin p0
+      have := closed_walkLoop hc wf t (σ.tst t).forward (e.size.toNat + 3) _ _ h0 hlf hT hw hin p0
       split
       · exact hc.setT _ _ _ this
       · exact hc.setT _ _ _ this
 
-theorem closed_foldl_setT (hc : Closed e P) (f : St → Nat → TSt) (l : List Nat) (σ : St) (h : P σ) :
+theorem closed_foldl_setT (hc : Closed e P T) (f : St → Nat → TSt) (l : List Nat) (σ : St) (h : P σ) :
     P (l.foldl (fun (acc : St) t => acc.setT t (f acc t)) σ) :=
   foldl_inv (fun acc => P acc) _ l σ h (fun acc t hacc => hc.setT acc t _ hacc)
 
-theorem closed_updateContainers (hc : Closed e P) (σ : St) (h : P σ) : P (updateContainers e σ) := by
+theorem closed_updateContainers (hc : Closed e P T) (σ : St) (h : P σ) : P (updateContainers e σ) := by
   unfold updateContainers; exact closed_foldl_setT hc _ _ σ h
 
-theorem closed_pickLoop (hc : Closed e P) (wf : WF e) (fuel : Nat) (tasks failed : List Nat) (σ : St) (hi : Inv e σ)
-    (hlv : ∀ t ∈ tasks, (e.taskD t).leaf = true) (h : P σ) : P (pickLoop e fuel tasks failed σ).1 := by
+theorem closed_pickLoop (hc : Closed e P T) (wf : WF e) (fuel : Nat) (tasks failed : List Nat) (σ : St) (hi : Inv e σ)
+    (hlv : ∀ t ∈ tasks, (e.taskD t).leaf = true) (hT : ∀ t ∈ tasks, T t) (h : P σ) : P (pickLoop e fuel tasks failed σ).1 := by
   induction fuel generalizing tasks failed σ with
   | zero => exact h
   | succ f ih =>
@@ -330,13 +330,13 @@ theorem closed_pickLoop (hc : Closed e P) (wf : WF e) (fuel : Nat) (tasks failed
       · rename_i t ht
         have htm : t ∈ tasks := List.mem_of_find?_eq_some ht
         exact ih _ _ _ (updateContainers_inv e _ (scheduleTask_inv e σ _ wf hi (hlv t htm)))
-          (fun x hx => hlv x (List.mem_of_mem_erase hx))
-          (closed_updateContainers hc _ (closed_scheduleTask hc wf σ t hi (hlv t htm) h))
+          (fun x hx => hlv x (List.mem_of_mem_erase hx)) (fun x hx => hT x (List.mem_of_mem_erase hx))
+          (closed_updateContainers hc _ (closed_scheduleTask hc wf σ t hi (hlv t htm) (hT t htm) h))
       · split
         · exact hc.eq σ _ rfl rfl rfl h
         · exact h
 
-theorem closed_markAlap (hc : Closed e P) (fuel : Nat) (stack processed : List Nat) (σ : St) (h : P σ) :
+theorem closed_markAlap (hc : Closed e P T) (fuel : Nat) (stack processed : List Nat) (σ : St) (h : P σ) :
     P (markAlap e fuel stack processed σ).1 := by
   induction fuel generalizing stack processed σ with
   | zero => unfold markAlap; exact h
@@ -354,22 +354,22 @@ theorem closed_markAlap (hc : Closed e P) (fuel : Nat) (stack processed : List N
           · exact ih _ _ _ h
           · exact ih _ _ _ (hc.setT _ _ _ h)
 
-theorem closed_propagateAlap (hc : Closed e P) (σ : St) (h : P σ) : P (propagateAlap e σ) := by
+theorem closed_propagateAlap (hc : Closed e P T) (σ : St) (h : P σ) : P (propagateAlap e σ) := by
   unfold propagateAlap
   simp only []
   apply foldl_inv (fun (acc : St × List Nat) => P acc.1) _ _ (σ, []) h
   intro acc a hacc
   exact closed_markAlap hc _ _ _ _ hacc
 
-theorem closed_prepare (hc : Closed e P) (σ : St) (h : P σ) : P (prepare e σ) := by
+theorem closed_prepare (hc : Closed e P T) (σ : St) (h : P σ) : P (prepare e σ) := by
   unfold prepare propagateContainerEnds
   exact closed_foldl_setT hc _ _ _ (closed_foldl_setT hc _ _ σ h)
 
-theorem closed_preLoop (hc : Closed e P) (σ : St) (h : P σ) : P (preLoop e σ) := by
+theorem closed_preLoop (hc : Closed e P T) (σ : St) (h : P σ) : P (preLoop e σ) := by
   unfold preLoop milestonePrepass
   exact closed_updateContainers hc _ (closed_propagateAlap hc _ (closed_foldl_setT hc _ _ σ h))
 
-theorem closed_finishScenario (hc : Closed e P) (σ : St) (h : P σ) : P (finishScenario e σ) := by
+theorem closed_finishScenario (hc : Closed e P T) (σ : St) (h : P σ) : P (finishScenario e σ) := by
   unfold finishScenario
   apply foldl_inv (fun acc => P acc) _ _ σ h
   intro acc t hacc
@@ -377,21 +377,21 @@ theorem closed_finishScenario (hc : Closed e P) (σ : St) (h : P σ) : P (finish
   · exact hacc
   · exact hc.setT _ _ _ hacc
 
-theorem closed_scheduleScenario (hc : Closed e P) (wf : WF e) (σ : St) (hi : Inv e σ) (h : P σ) :
+theorem closed_scheduleScenario (hc : Closed e P T) (wf : WF e) (σ : St) (hi : Inv e σ) (hT : ∀ t, T t) (h : P σ) :
     P (scheduleScenario e σ) := by
   unfold scheduleScenario
   simp only []
   have h3 := closed_pickLoop hc wf ((todoOf e (preLoop e σ)).length + 1) (todoOf e (preLoop e σ)) [] _ (preLoop_inv e σ hi)
-    (todoOf_leaf e _) (closed_preLoop hc σ h)
+    (todoOf_leaf e _) (fun t _ => hT t) (closed_preLoop hc σ h)
   split
   · exact h3
   · exact hc.eq (pickLoop e ((todoOf e (preLoop e σ)).length + 1) (todoOf e (preLoop e σ)) [] (preLoop e σ)).1 _ rfl rfl rfl h3
 
 /-- **induction over everything the scheduler does**: a predicate closed under the four primitive state changes that
     holds of the empty state holds of the state any well-formed project ends in -/
-theorem runScenario_closed (hc : Closed e P) (wf : WF e) (h0 : P (initState e)) : P (runScenario e) := by
+theorem runScenario_closed (hc : Closed e P T) (wf : WF e) (hT : ∀ t, T t) (h0 : P (initState e)) : P (runScenario e) := by
   unfold runScenario
   exact closed_finishScenario hc _
-    (closed_scheduleScenario hc wf _ (prepare_inv e _ (inv_init e wf)) (closed_prepare hc _ h0))
+    (closed_scheduleScenario hc wf _ (prepare_inv e _ (inv_init e wf)) hT (closed_prepare hc _ h0))
 
 end SP
